@@ -6,7 +6,7 @@ from hypothesis import strategies as st
 from vf.core import CaseResult, Ctx, Violation, exc_sig, hyp_run
 from vf.gen.wfspec import atoms_of, render_flow, wfspecs
 from vf.sim.drive import (
-    Driver, job_outputs, outcome_for, outcome_maps, run_async, schedules)
+    Driver, heard_result_of, outcome_maps, run_async, schedules)
 from vf.sim.model import Model
 
 PROP_ID = 'C01'
@@ -46,6 +46,9 @@ ASSUMPTIONS = [
     'inside an OR while no real upstream output spawned them are ambiguous '
     'under the statement: such cases skip the set-equality clause.',
     'The ZMQ server is stubbed; messages enter through Scheduler.message_queue.',
+    'The reference closure counts a custom output only if its message was '
+    'processed while the task was in the pool (a message delivered after '
+    '"succeeded" completed and removed the task is undeliverable by design).',
 ]
 
 
@@ -156,8 +159,11 @@ def oracle(spec, outcomes, model: Model, drv: Driver, shut, quiescent, classes,
             f'scheduler aborted with {exc!r}'))
         return viol
 
-    def result_of(t, p):
-        return job_outputs(spec, t, outcome_for(outcomes, t, p, 1))
+    # outputs whose message arrived after the task had completed and left
+    # the pool were never produced as far as the scheduler can tell
+    result_of, unheard = heard_result_of(sim, spec, outcomes, drv.to_str)
+    if unheard:
+        classes.append('output-message-after-task-left-pool')
 
     # (a) each launch: valid instance, prerequisites true over recorded outputs
     seen = {}
@@ -232,6 +238,29 @@ def oracle(spec, outcomes, model: Model, drv: Driver, shut, quiescent, classes,
                 f'parentless instances never auto-spawned: {chain} (the '
                 f'task is parented at an earlier point whose instance never '
                 f'spawned); all missing: {sorted(missing)}'))
+            return viol
+        # known finding: an instance whose only parents at/after the start
+        # point are absolute ones, but which also has a pre-initial
+        # (ignored) non-absolute parent, is neither auto-spawned (cylc's
+        # is_parentless wants *only* absolute triggers or *only* pre-initial
+        # parents) nor spawned by the absolute parent's output (only its
+        # first child is)
+        def mixed(t, p):
+            atoms = [a for tr in model.trees_at(t, p) for a in atoms_of(tr)]
+            return (
+                model.parentless(t, p)
+                and any(a.get('abs') is not None for a in atoms)
+                and any(a.get('abs') is None for a in atoms)
+                and any(q < p and model.is_valid(t, q)
+                        for q in model.valid[t]))
+        mix = sorted(i for i in missing if mixed(*i))
+        if mix and not extra:
+            viol.append(Violation(
+                f'{prop}:missing-run:absolute-plus-preinitial-parents-'
+                f'not-first-child',
+                f'never spawned: {mix} (only absolute parents at/after the '
+                f'start point plus a pre-initial one; not the first '
+                f'instance of the task); all missing: {sorted(missing)}'))
             return viol
         if extra:
             viol.append(Violation(
